@@ -338,6 +338,44 @@ def show_exp(exp):
     return {"stdout": eo.decode(errors="replace"), "stderr": ee.decode(errors="replace"), "exit": ec}
 
 
+_FORM1 = re.compile(rb"^:([1-9][0-9]*):([0-9]+): (?:[0-9]+:[0-9]+: )*(?:in '[^']+': )?(?:[0-9]+:[0-9]+: (?:in '[^']+': )?)*(.+)$")
+_TRACE = re.compile(rb"^  .+:[1-9][0-9]*:[0-9]+: in '[^']+'$")
+_INTERNAL = re.compile(rb"\b[A-Z][a-z]+(?:[A-Z][a-z]+)+\s*(?::|\{)")
+
+
+def stderr_form(se, path, code):
+    """Specification-independent form of a failure (C17): returns None if
+    well-formed, else a description. Applies to exit status 103 only."""
+    if code == 0:
+        return None if se == b"" else "stderr is not empty on success"
+    if code != 103:
+        return None
+    p = path.encode()
+    lines = se.split(b"\n")
+    if not se.endswith(b"\n"):
+        return "stderr does not end with a newline"
+    lines = lines[:-1]
+    if not lines or not lines[0].startswith(p):
+        return "first line does not start with the script path as given"
+    m = _FORM1.match(lines[0][len(p):])
+    if not m:
+        return "first line is not `<path>:<line>:<col>: [in '<f>': ]<message>`"
+    if _INTERNAL.search(m.group(3)):
+        return "message contains an internal identifier"
+    rest = lines[1:]
+    if rest:
+        if rest[0] != b"Stacktrace:":
+            return "unexpected text after the first line"
+        if len(rest) < 2:
+            return "empty stack trace"
+        for t in rest[1:]:
+            if not _TRACE.match(t) or not t[2:].startswith(p):
+                return "malformed stack trace line"
+        if not rest[-1].endswith(b"in '<root>'"):
+            return "stack trace does not end at <root>"
+    return None
+
+
 def crashed(se, code):
     """Specification-independent crash oracle (C02)."""
     if code is None:
